@@ -8,7 +8,7 @@ from .. import dagsweep as D
 from .. import sweepprops as S
 
 LEVEL = 'proof'
-NEEDS = ['SFIdentify', 'Extracted', 'SourceFacts', 'Bridge', 'BridgeProofs', 'Base', 'Digraph', 'DSep', 'DSepProofs', 'Markov', 'MarkovProofs', 'CorrDag']
+NEEDS = ['PyRt', 'IdentifyGenLemmas', 'IdentifyGenConf', 'IdentifyGenMB', 'IdentifyGenMBProofs', 'SFIdentify', 'Extracted', 'SourceFacts', 'Bridge', 'BridgeProofs', 'Base', 'Digraph', 'DSep', 'DSepProofs', 'Markov', 'MarkovProofs', 'CorrDag']
 TYPES = ['->', '<>', '--']
 
 
